@@ -76,7 +76,7 @@ func (w *World) LemmaObligation(lem *Lemma) (o *Obligation, err error) {
 	for _, a := range args {
 		if s, ok := a.(SSlice); ok {
 			hyps = append(hyps, BVCmp("bvsle", BVInt(0, 64), s.Len), BVCmp("bvsle", BVInt(0, 64), s.Off),
-				BVCmp("bvsle", s.Len, BVInt(int64(1)<<48, 64)), BVCmp("bvsle", s.Off, BVInt(int64(1)<<48, 64)))
+				BVCmp("bvsle", s.Len, BVInt(int64(1)<<60, 64)), BVCmp("bvsle", s.Off, BVInt(int64(1)<<60, 64)))
 		}
 	}
 	for _, c := range lem.Clauses {
